@@ -586,6 +586,8 @@ func (h *Handle) walk(c *Call, names []string) ([]p9.QID, *Handle, error) {
 	fs.access(cur, false, "walk")
 	if len(names) == 0 {
 		nh := fs.newHandle(h.Ino, h.Parent, h.Name, c)
+		// a clone of a handle whose path has gone is at that same, gone path
+		nh.Detached, nh.DetachedBy = h.Detached, h.DetachedBy
 		return []p9.QID{h.Ino.QID()}, nh, nil
 	}
 	if !cur.IsDir() {
@@ -609,6 +611,9 @@ func (h *Handle) walk(c *Call, names []string) ([]p9.QID, *Handle, error) {
 		cur = next
 	}
 	last := parent
+	// (a server never walks to a child from a handle it knows to be gone; if it
+	// does, the child's path is below a path that no longer exists)
+	last.Detached, last.DetachedBy = h.Detached, h.DetachedBy
 	last.ID = len(fs.Handles)
 	last.Created = c.Seq
 	fs.Handles = append(fs.Handles, last)
